@@ -3,6 +3,7 @@ from .base import PropBase, Violation
 from .. import history, refmodel as rm, gen, probe
 from ..world import World
 from . import c02
+import modelx as mx
 
 WEIGHTS = {"eval": 7, "set_ref": 3.5, "del_ref": 1.2, "set_formula": 2, "new_cells": 1.5, "del_cells": 0.7,
            "set_cached": 2.5, "bases": 1.2, "new_space": 0.6, "rename_cells": 0.4, "sformula": 0.4, "clear": 0.6, "gc": 0.2}
@@ -202,6 +203,34 @@ class C09(PropBase):
         got2 = [c([1, 2, 3]), w(), w2()]
         if got2 != [11, 11, 19]:
             raise Violation("C09/stale/via=unhashable-argument-call/edit=set_ref", {"got": got2, "want": [11, 11, 19]})
+        # a failure inside an uncached cells reached with an unhashable argument is a failure like any other
+        from modelx.core.errors import FormulaError
+        zf = sp.new_cells("zf", formula="lambda x: len(x) // (len(x) - len(x))")
+        zf.is_cached = False
+        wf = sp.new_cells("wf", formula="lambda: zf([1, 2]) + 1")
+        for call, label in ((lambda: zf([1]), "direct"), (lambda: wf(), "through-a-cached-caller")):
+            try:
+                call()
+                out = "returned"
+            except FormulaError:
+                err = mx.get_error()
+                out = type(err).__name__
+            except Exception as e:
+                out = "raw " + type(e).__name__
+            if out != "ZeroDivisionError":
+                raise Violation("C09/failure-with-unhashable-argument-misreported/%s/%s" % (label, out), {})
+            try:
+                repr(mx.get_traceback())
+            except Exception as e:
+                raise Violation("C09/traceback-with-unhashable-argument-unprintable/%s" % type(e).__name__, {})
+        # copies of an uncached cells are uncached: the same answers, nothing held
+        try:
+            cp = sp.copy(m, "ZZ9c")
+            gotc = [cp.zz([1, 2, 3]), cp.ww(), len(cp.zz)]
+        except Exception as e:
+            raise Violation("C09/copy-of-uncached-cells-differs/%s" % type(e).__name__, {"error": repr(e)[:200]})
+        if gotc != [11, 11, 0]:
+            raise Violation("C09/copy-of-uncached-cells-differs/values", {"got": gotc, "want": [11, 11, 0]})
 
 
 PROP = C09()
